@@ -9,3 +9,5 @@ pub mod zonefile;
 pub mod update_driver;
 pub mod updates;
 pub mod hier;
+pub mod nzones;
+pub mod zonebuild;
